@@ -54,6 +54,9 @@ def run(ck):
                     if not shape_err_verdict(ck, "C05.R1", "%s/%s" % (cls, form), paths):
                         continue
                     R, res = p.value
+                    _mx = batch_reductions(p, ("B",))
+                    ck.check(not _mx, "C05.R1", "%s/%s:each row's conditional depends on that row only" % (cls, form), _mx[0][0] if _mx else prog.method(cls, "effective_energy").site(),
+                             "%s over the axes %s, which include the batch axis: rows of a batch are mixed" % ((_mx[0][1], _mx[0][2]) if _mx else ("", "")))
                     refs = cond_refs(R, T.sym)
                     for name, (argk, ref) in refs.items():
                         site = prog.method(cls, name).site()
